@@ -1,7 +1,7 @@
 """C04 - a vapour-liquid flash honours its specifications and the equilibrium conditions."""
 import random
 
-from harness import core, tlc
+from harness import core, par, replayjob, tlc
 from harness.drivers import flash as df
 
 ASSUME = [
@@ -24,6 +24,52 @@ def key_of(step, clause):
     return 'Flash:%s:%s%s:%s' % (step['op'], a.get('region', ''), ',again' if a.get('again') else '', clause)
 
 
+def exact_case(seed):
+    rng = random.Random(seed)
+    n = len(df.A)
+    a = df.propose(rng)
+    op = 'tp_exact'
+    if a['region'] == 'two':
+        op = rng.choice(['tp_exact', 'tp_exact', 'tv_exact', 'pv_exact'])
+    a = dict(a, scaled=rng.random() < 0.5)
+    a['again'] = rng.random() < 0.3          # a second call on a stream that was flashed before with another amount of the same feed
+    obs = df.exact(op, a, rng.choice([1e-3, 40., 1000., 1e-10]) if a['scaled'] else 1., rng.random() < 0.3, rng.choice([1., 7., 0.01]) if a['again'] else None)
+    return dict(op=op, a=a, post=dict(w=[0] * n, c=[1, 1]), obs=obs, job=['exact_case', seed])
+
+
+def measured_case(seed):
+    rng = random.Random(seed)
+    n = len(df.A)
+    fam = rng.choice(sorted(df.FAMILIES))
+    ideal = rng.random() < 0.35
+    ids = rng.sample(df.FAMILIES[fam], rng.randint(1, len(df.FAMILIES[fam])))
+    comp = {i: 0.02 + rng.random() for i in ids}
+    if rng.random() < 0.3:
+        comp['N2'] = 0.01 * rng.random()
+    if rng.random() < 0.3:
+        comp['Glucose'] = 0.01 * rng.random()
+    f = 10 ** rng.uniform(-1, 2)
+    comp = {i: v * f for i, v in comp.items()}
+    kind = rng.choice(['TP', 'TP', 'TV', 'PV', 'PH', 'PS'])
+    obs = df.measured(fam, ideal, comp, kind, rng.random(), rng.random(), rng.choice([1e-3, 50., 3.]))
+    return dict(op='measured', a=dict(family=fam, ideal=ideal, kind=kind, ids=sorted(comp), tol=1000, ftol=100000, w=[0] * n, T=1, P=1),
+                post=dict(w=[0] * n, c=[1, 1]), obs=obs, job=['measured_case', seed])
+
+
+def as_trace(step):
+    s = dict(step)
+    s.pop('job', None)
+    return dict(id='F0', mode='fan', init=dict(w=[0] * len(df.A), c=[1, 1]), steps=[s])
+
+
+def replay_exact(seed):
+    return as_trace(exact_case(seed))
+
+
+def replay_measured(seed):
+    return as_trace(measured_case(seed))
+
+
 def run(ctx):
     rng = random.Random(ctx.seed)
     quick = ctx.quick
@@ -36,30 +82,8 @@ def run(ctx):
     steps = []
     n = len(df.A)
     zero = dict(w=[0] * n, c=[1, 1])
-    for k in range(300 if quick else 10000):
-        a = df.propose(rng)
-        op = 'tp_exact'
-        if a['region'] == 'two':
-            op = rng.choice(['tp_exact', 'tp_exact', 'tv_exact', 'pv_exact'])
-        a = dict(a, scaled=rng.random() < 0.5)
-        a['again'] = rng.random() < 0.3          # a second call on a stream that was flashed before with another amount of the same feed
-        obs = df.exact(op, a, rng.choice([1e-3, 40., 1000., 1e-10]) if a['scaled'] else 1., rng.random() < 0.3, rng.choice([1., 7., 0.01]) if a['again'] else None)
-        steps.append(dict(op=op, a=a, post=zero, obs=obs))
-    for k in range(120 if quick else 4000):
-        fam = rng.choice(sorted(df.FAMILIES))
-        ideal = rng.random() < 0.35
-        ids = rng.sample(df.FAMILIES[fam], rng.randint(1, len(df.FAMILIES[fam])))
-        comp = {i: 0.02 + rng.random() for i in ids}
-        if rng.random() < 0.3:
-            comp['N2'] = 0.01 * rng.random()
-        if rng.random() < 0.3:
-            comp['Glucose'] = 0.01 * rng.random()
-        f = 10 ** rng.uniform(-1, 2)
-        comp = {i: v * f for i, v in comp.items()}
-        kind = rng.choice(['TP', 'TP', 'TV', 'PV', 'PH', 'PS'])
-        obs = df.measured(fam, ideal, comp, kind, rng.random(), rng.random(), rng.choice([1e-3, 50., 3.]))
-        steps.append(dict(op='measured', a=dict(family=fam, ideal=ideal, kind=kind, ids=sorted(comp), tol=1000, ftol=100000, w=[0] * n, T=1, P=1),
-                          post=zero, obs=obs))
+    jobs = [('%d:x%d' % (ctx.seed, k),) for k in range(300 if quick else 10000)]
+    steps = par.pmap(exact_case, jobs) + par.pmap(measured_case, [('%d:m%d' % (ctx.seed, k),) for k in range(120 if quick else 4000)])
     per = 40
     traces = [dict(id='F%d' % i, mode='fan', init=zero, steps=steps[i * per:(i + 1) * per]) for i in range((len(steps) + per - 1) // per)]
     defs, cfgc = df.tla_constants()
@@ -74,7 +98,7 @@ def run(ctx):
             cases.append((l not in ooc, [s['op'], s['a'], s['obs'] if s['op'] == 'measured' else None]))
             if l in bad:
                 ctx.violation(key_of(s, bad[l]), '%s %r: %s obs=%r' % (s['op'], s['a'], bad[l], s['obs']),
-                              dict(kind='note', detail='re-run the check with the same seed', op=s['op'], a=s['a'], clause=bad[l]))
+                              dict(kind='job', func='replay_exact' if s['job'][0] == 'exact_case' else 'replay_measured', args=[s['job'][1]], clause=bad[l]))
             elif l in ooc:
                 n_ooc += 1
             else:
@@ -94,6 +118,4 @@ def run(ctx):
 
 
 def replay(ctx, data):
-    print('# C04 violations: re-run ./check C04 with the recorded seed')
-    print(data.get('what', ''))
-    return 1
+    return replayjob.run('C04', data, dict(replay_exact=replay_exact, replay_measured=replay_measured), 'Flash', df.tla_constants())
